@@ -109,7 +109,7 @@ def _observe(h):
 
 
 def run(ctx):
-    depth = 7 if ctx.quick else 10
+    depth = 7 if ctx.quick else 11
     ctx.prove_deterministic(_observe, [("rs1", "tA+6", "disc", "reg", "conn", "uod", "tA+6", "stop1"),
                                        ("rs1", "restart", "reg", "conn", "tA+6", "stop1"), ("rs1", "disc", "restart", "reg")])
     tot = dict(a=0, b=0, b_silent=0, c=0)
